@@ -308,6 +308,45 @@ pub fn parse_expr(iter: &mut Iter<'_>) -> Expr {
     parse_add(iter)
 }
 
+/// Expressions are parsed, evaluated and dropped recursively. Like the
+/// query parser, refuse one that could nest deeper than this.
+const MAX_NESTING: usize = 128;
+
+/// Upper bound on the depth of the tree built from the rest of the line:
+/// every parenthesis and every operator of this grammar adds a level.
+fn nesting_depth(iter: &Iter<'_>) -> usize {
+    let mut depth = 0;
+    for token in iter.clone() {
+        match token {
+            Token::Newline | Token::Eof => break,
+            Token::LPar
+            | Token::Plus
+            | Token::Dash
+            | Token::Slash
+            | Token::Caret
+            | Token::Pipe => depth += 1,
+            Token::Ident(ref name) if name == "of" => depth += 1,
+            _ => (),
+        }
+    }
+    depth
+}
+
+/// Runs one of the expression parsers, unless the rest of the line is
+/// nested too deeply: then the line is skipped and an error node returned.
+fn parse_bounded(iter: &mut Iter<'_>, parse: fn(&mut Iter<'_>) -> Expr) -> Expr {
+    if nesting_depth(iter) > MAX_NESTING {
+        while !matches!(iter.peek(), Some(Token::Newline) | Some(Token::Eof) | None) {
+            iter.next();
+        }
+        return Expr::new_error(format!(
+            "Expression is nested more than {} levels deep",
+            MAX_NESTING
+        ));
+    }
+    parse(iter)
+}
+
 pub fn parse(iter: &mut Iter<'_>) -> Defs {
     let mut map = vec![];
     let mut line = 1;
@@ -379,7 +418,7 @@ pub fn parse(iter: &mut Iter<'_>) -> Defs {
             Token::Ident(name) => {
                 if name.ends_with('-') {
                     // prefix
-                    let expr = parse_expr(iter);
+                    let expr = parse_bounded(iter, parse_expr);
                     let mut name = name;
                     name.pop();
                     if name.ends_with('-') {
@@ -426,7 +465,7 @@ pub fn parse(iter: &mut Iter<'_>) -> Defs {
                     } else if let Some(&Token::Question) = iter.peek() {
                         // quantity
                         iter.next();
-                        let expr = parse_expr(iter);
+                        let expr = parse_bounded(iter, parse_expr);
                         map.push(DefEntry {
                             name,
                             def: Rc::new(Def::Quantity {
@@ -476,7 +515,7 @@ pub fn parse(iter: &mut Iter<'_>) -> Defs {
                                             break;
                                         }
                                     };
-                                    let output = parse_div(iter);
+                                    let output = parse_bounded(iter, parse_div);
                                     props.push(Property {
                                         output_name: name.clone(),
                                         name,
@@ -493,7 +532,7 @@ pub fn parse(iter: &mut Iter<'_>) -> Defs {
                                     break;
                                 }
                             };
-                            let output = parse_mul(iter);
+                            let output = parse_bounded(iter, parse_mul);
                             match iter.next().unwrap() {
                                 Token::Slash => (),
                                 x => {
@@ -508,7 +547,7 @@ pub fn parse(iter: &mut Iter<'_>) -> Defs {
                                     break;
                                 }
                             };
-                            let input = parse_mul(iter);
+                            let input = parse_bounded(iter, parse_mul);
                             props.push(Property {
                                 name,
                                 input: ExprString(input),
@@ -529,7 +568,7 @@ pub fn parse(iter: &mut Iter<'_>) -> Defs {
                         });
                     } else {
                         // derived
-                        let expr = parse_expr(iter);
+                        let expr = parse_bounded(iter, parse_expr);
                         map.push(DefEntry {
                             name,
                             def: Rc::new(Def::Unit {
